@@ -67,6 +67,14 @@ def loaders(cfg, crate, rep):
         # the stored document has (aws-lc-rs keeps SEC1 / PKCS#1 input as is), so only sniffing the DER round-trips
         tagged = sorted({c for c, a_, n_, cd_, f_ in I.calls if c.endswith(("Pem::tag", "Pem::headers"))})
         rep.ob("C14.load", "%s|%s|label-independent" % (cfg, fn), not tagged, "the loader does not let the PEM label decide how the contents are parsed", found=tagged)
+        # the loader itself never judges the decoded bytes: whether they are acceptable is the DER entry point's decision
+        # alone (a second, hand-written opinion on lengths / framing can only reject what rcgen itself wrote)
+        own = []
+        for c_, v_, n_, f_ in I.fails:
+            if f_ != fn:
+                continue
+            own += [F.show_atom(a)[:160] for a in F.atoms(c_) if any(t_ in F.show_atom(a) for t_ in ("contents", "Pem::tag", "Pem::headers"))]
+        rep.ob("C14.load", "%s|%s|no-own-judgement" % (cfg, fn), not own, "no rejection in the PEM loader depends on the decoded contents (only pem::parse and the DER entry point reject)", found=sorted(set(own))[:3])
         rep.ob("C14.load", "%s|%s" % (cfg, fn), ok_t and ok_p and cont, "the loader parses the envelope and hands its *contents* to the DER entry point", expected="pem::parse(pem_str) -> contents -> %s" % target, found=core(v).r()[:200])
     rep.floor("C14.load", "PEM loaders (%s)" % cfg, nl, 6 if cfg in ("K1", "K2") else 0)
 
